@@ -74,3 +74,32 @@ VARIANTS = [
            [(CB, "            return changed, BlockStatement(\n                parallel=block.parallel,", "            return changed, type(block)(\n                parallel=block.parallel,")],
            ("C13", "C17", "C07", "C11")),
 ]
+
+RS = "src/jaqalpaq/core/result.py"
+_RANGE = ("        outcomes = 2 ** len(subcircuit.measured_qubits)\n        if not 0 <= nxt < outcomes:\n")
+
+VARIANTS += [
+    # ---- outcomes are range-checked (repo fix 3f7652f)
+    fire("r10-outcome-range-check-reverted",
+         [(RS, _RANGE + "            # (a negative index would silently be counted in another bin)\n            raise JaqalError(\n                f\"Measurement outcome {nxt} is not in the range 0..{outcomes - 1}\"\n            )\n", "")],
+         ("*", "OutputParser.process_trace:outcome-range"), ("C15", "C16")),
+    fire("r10-outcome-upper-bound-only",
+         [(RS, _RANGE, "        outcomes = 2 ** len(subcircuit.measured_qubits)\n        if nxt >= outcomes:\n")],
+         ("*", "OutputParser.process_trace:outcome-range"), ("C15", "C16")),
+    silent("r10-outcome-range-as-two-tests",
+           [(RS, _RANGE, "        outcomes = 2 ** len(subcircuit.measured_qubits)\n        if nxt < 0 or nxt >= outcomes:\n")],
+           ("C15", "C16")),
+    silent("r10-outcome-range-by-membership",
+           [(RS, _RANGE, "        outcomes = 2 ** len(subcircuit.measured_qubits)\n        if nxt not in range(outcomes):\n")],
+           ("C15", "C16")),
+]
+
+VARIANTS += [
+    # ---- bool in the value writer (repo fix)
+    fire("r10-value-writer-bool-reverted",
+         [(GE, "    if isinstance(val, bool) or not isinstance(val, (int, float)):", "    if not isinstance(val, (int, float)):")],
+         ("*", "generate_jaqal_value:bool-before-str"), ("C01", "C20")),
+    silent("r10-value-writer-bool-refused",
+           [(GE, "    if isinstance(val, bool) or not isinstance(val, (int, float)):", "    if isinstance(val, bool):\n        val = int(val)\n    if not isinstance(val, (int, float)):")],
+           ("C01", "C20")),
+]
